@@ -100,6 +100,8 @@ def run_property(prop, tier, jobs, level_note='', assumptions=(), outside=(), wo
     os.makedirs(os.path.join(VERIF, 'evidence'), exist_ok=True)
     for j in jobs:
         j.setdefault('mandatory', True)
+    # long shapes first (LPT scheduling of the worker pool): tier B vectors, then by number of items
+    jobs.sort(key=lambda j: (0 if j['id'].startswith('tierB') else 1, -int(j['params'].get('n', j['params'].get('L', 0)) or 0)))
     known_builder = make_known_builder(prop)
 
     def progress(agg, el):
